@@ -91,6 +91,18 @@ CHECKS['C14'] = dict(
     design_ref='DESIGN.md section 6, C14',
     technique='Coq proof (invariant: non-empty queue implies dead lease; induction over histories) + in-Coq correspondence under a virtual clock')
 
+CHECKS['C17'] = dict(
+    text='Theorems over the settled-step model of the client connection manager (props/C17.v): a reconnect from ANY state of a client '
+         'that has connected once closes the old transport, fails every pending request once, takes the next transport, writes a '
+         'fresh SETUP, is alive and restarts stream ids; the next request gets id 1 right after SETUP; EOF / transport error / '
+         'keepalive timeout / explicit reconnect each lead to exactly that reconnect; for every action sequence and handler policy '
+         'SETUP is first and unique on every transport ever used; the pre-fix behaviour (no liveness reset) is proved dead. Tied to '
+         'rsocket_client.py / rsocket_base.py by an in-Coq correspondence driving a real client through random action sequences '
+         '(1..6 consecutive reconnects, four handler policies) on the virtual-time loop. Partial: interleavings inside the reconnect '
+         'sequence and asyncio task mechanics are only exercised, not modelled.',
+    design_ref='DESIGN.md section 6, C17',
+    technique='Coq proof (invariant over all action sequences of a settled-step machine) + in-Coq correspondence with a real client and transport provider')
+
 NOT_YET = {}
 
 def main():
